@@ -14,8 +14,16 @@ from vplib import *
 import lmmm
 from lmmm import *
 
-OCAML = lmmm.OCAML
-HARNESS = lmmm.HARNESS
+import importlib.util as _ilu0, sys as _sys0
+if os.path.join(VERIF, "checks") not in _sys0.path:
+    _sys0.path.insert(0, os.path.join(VERIF, "checks"))
+def _load_part(name):
+    sp = _ilu0.spec_from_file_location("part_" + name, os.path.join(VERIF, "checks", name + ".py"))
+    m = _ilu0.module_from_spec(sp); sp.loader.exec_module(m)
+    return m
+lower_part = _load_part("lower_part")
+OCAML = lmmm.OCAML + lower_part.OCAML
+HARNESS = lmmm.HARNESS + lower_part.HARNESS
 
 ODD_NAMES = ["lambda_0", "lambda_1", "feed_id0", "feed_id1", "record_update_temp", "__default_0_x", "__default_1_x", "_mimium_global",
              "dsp0", "main", "_", "x_", "state", "mem_", "delay1", "now_", "Self", "selfx", "fn_", "let_", "if_", "then", "r", "q", "zz",
@@ -346,6 +354,11 @@ def run(ck):
                             "how": "run both sources through .cache/target/lang/debug/lmmm_run and compare"})
         if len(seen) >= 6:
             break
+    # ---------------- layout part: parser model + lowering model (Props/C16_layout.v, Props/C04_lower.v; checks/lower_part.py) ------------
+    lviol = lower_part.run_part(ck, quick)
+    for what, rp in lviol[:6]:
+        ck.violation(what, {k: v for k, v in rp.items() if k != "no_input"}, no_input=bool(rp.get("no_input")))
+    viol = viol + [(w, None, None, None, None) for w, _ in lviol]
     if not proved and not viol:
         ck.violation("a proof obligation of Props/C16.v no longer checks", {"broken": ck.broken}, no_input=True)
     return finish(ck)
